@@ -17,6 +17,7 @@ import (
 	"github.com/cloudflare/circl/ecc/fourq"
 	"github.com/cloudflare/circl/ecc/goldilocks"
 	"github.com/cloudflare/circl/group"
+	"github.com/cloudflare/circl/kem/frodo/frodo640shake"
 	"github.com/cloudflare/circl/kem/kyber/kyber768"
 	"github.com/cloudflare/circl/kem/mlkem/mlkem768"
 	"github.com/cloudflare/circl/math/polynomial"
@@ -89,6 +90,17 @@ func (t *tokens) of(b []byte) int {
 func must(b []byte, err error) []byte {
 	if err != nil {
 		return []byte("error:" + err.Error())
+	}
+	return b
+}
+
+// outbuf returns an output buffer for a *To / Pack call: zeroed, or pre-filled - what such a call writes must not depend on what was there
+func outbuf(rng *rand.Rand, n int) []byte {
+	b := make([]byte, n)
+	if rng.Intn(2) == 0 {
+		for i := range b {
+			b[i] = 0xff
+		}
 	}
 	return b
 }
@@ -479,11 +491,24 @@ func pqDomain(rng *rand.Rand) *domain {
 			func(*rand.Rand) interface{} { pk := new(mldsa65.PublicKey); _ = pk.UnmarshalBinary(dpk[0]); return pk }},
 	}
 	seed32 := func(rng *rand.Rand, _ [][]interface{}) []byte { return []byte{byte(rng.Intn(3))} }
+	const FSK, FPK = 6, 7
+	var fsk, fpk [][]byte
+	for i := 0; i < 3; i++ {
+		pk, sk := frodo640shake.Scheme().DeriveKeyPair(vlib.Bytes(rng, frodo640shake.KeySeedSize))
+		a, _ := sk.MarshalBinary()
+		b, _ := pk.MarshalBinary()
+		fsk, fpk = append(fsk, a), append(fpk, b)
+	}
+	d.kinds = append(d.kinds,
+		kind{"frodo.sk", 2, func(o interface{}) []byte { b := outbuf(rng, frodo640shake.PrivateKeySize); o.(*frodo640shake.PrivateKey).Pack(b); return b },
+			func(*rand.Rand) interface{} { sk := new(frodo640shake.PrivateKey); sk.Unpack(fsk[0]); return sk }},
+		kind{"frodo.pk", 2, func(o interface{}) []byte { b := outbuf(rng, frodo640shake.PublicKeySize); o.(*frodo640shake.PublicKey).Pack(b); return b },
+			func(*rand.Rand) interface{} { pk := new(frodo640shake.PublicKey); pk.Unpack(fpk[0]); return pk }})
 	d.ops = []op{
 		{name: "kyber.sk.Unpack", recv: KSK, x: pick(&ksk), do: func(c *call) []byte { (*c.recv).(*kyber768.PrivateKey).Unpack(c.x); return nil }, fresh: func() interface{} { return new(kyber768.PrivateKey) }, weight: 3},
 		{name: "kyber.pk.Unpack", recv: KPK, x: pick(&kpk), do: func(c *call) []byte { (*c.recv).(*kyber768.PublicKey).Unpack(c.x); return nil }, fresh: func() interface{} { return new(kyber768.PublicKey) }, weight: 3},
 		{name: "kyber.EncapDecap", recv: -1, args: []int{KPK, KSK}, x: seed32, do: func(c *call) []byte {
-			ct, ss, ss2 := make([]byte, kyber768.CiphertextSize), make([]byte, 32), make([]byte, 32)
+			ct, ss, ss2 := outbuf(c.rng, kyber768.CiphertextSize), outbuf(c.rng, 32), outbuf(c.rng, 32)
 			c.args[0].(*kyber768.PublicKey).EncapsulateTo(ct, ss, bytes.Repeat(c.x, 32))
 			c.args[1].(*kyber768.PrivateKey).DecapsulateTo(ss2, ct)
 			return append(append(ct, ss...), ss2...)
@@ -497,12 +522,21 @@ func pqDomain(rng *rand.Rand) *domain {
 			return nil
 		}, fresh: func() interface{} { return new(mlkem768.PublicKey) }, weight: 3},
 		{name: "mlkem.EncapDecap", recv: -1, args: []int{MPK, MSK}, x: seed32, do: func(c *call) []byte {
-			ct, ss, ss2 := make([]byte, mlkem768.CiphertextSize), make([]byte, 32), make([]byte, 32)
+			ct, ss, ss2 := outbuf(c.rng, mlkem768.CiphertextSize), outbuf(c.rng, 32), outbuf(c.rng, 32)
 			c.args[0].(*mlkem768.PublicKey).EncapsulateTo(ct, ss, bytes.Repeat(c.x, 32))
 			c.args[1].(*mlkem768.PrivateKey).DecapsulateTo(ss2, ct)
 			return append(append(ct, ss...), ss2...)
 		}, weight: 2},
 		{name: "mlkem.sk.Public", recv: MPK, args: []int{MSK}, do: func(c *call) []byte { *c.recv = c.args[0].(*mlkem768.PrivateKey).Public().(*mlkem768.PublicKey); return nil }, weight: 2},
+		{name: "frodo.sk.Unpack", recv: FSK, x: pick(&fsk), do: func(c *call) []byte { (*c.recv).(*frodo640shake.PrivateKey).Unpack(c.x); return nil }, fresh: func() interface{} { return new(frodo640shake.PrivateKey) }, weight: 3},
+		{name: "frodo.pk.Unpack", recv: FPK, x: pick(&fpk), do: func(c *call) []byte { (*c.recv).(*frodo640shake.PublicKey).Unpack(c.x); return nil }, fresh: func() interface{} { return new(frodo640shake.PublicKey) }, weight: 3},
+		{name: "frodo.EncapDecap", recv: -1, args: []int{FPK, FSK}, x: seed32, do: func(c *call) []byte {
+			ct, ss, ss2 := outbuf(c.rng, frodo640shake.CiphertextSize), outbuf(c.rng, frodo640shake.SharedKeySize), outbuf(c.rng, frodo640shake.SharedKeySize)
+			c.args[0].(*frodo640shake.PublicKey).EncapsulateTo(ct, ss, bytes.Repeat(c.x, frodo640shake.EncapsulationSeedSize))
+			c.args[1].(*frodo640shake.PrivateKey).DecapsulateTo(ss2, ct)
+			return append(append(ct, ss...), ss2...)
+		}, weight: 2},
+		{name: "frodo.sk.Public", recv: FPK, args: []int{FSK}, do: func(c *call) []byte { *c.recv = c.args[0].(*frodo640shake.PrivateKey).Public().(*frodo640shake.PublicKey); return nil }, weight: 2},
 		{name: "mldsa.sk.Unmarshal", recv: DSK, x: pick(&dsk), do: func(c *call) []byte {
 			if err := (*c.recv).(*mldsa65.PrivateKey).UnmarshalBinary(c.x); err != nil {
 				panic(err)
@@ -657,6 +691,7 @@ func runDomain(d *domain, tr int, rng *rand.Rand, o *vlib.Out, calls int) {
 	// another kind (sk.Public and the like).  Half of the time the next call then decodes another value into that very object, in place,
 	// so that storage shared between the two shows as a change of the derived object.
 	derived := [2]int{-1, -1}
+	produced := [2]int{-1, -1} // and the (kind, index) of the object that call wrote: the other half of the next calls decodes into THAT one in place
 	for n := 0; n < calls; n++ {
 		r := rng.Intn(wsum)
 		var p *op
@@ -669,14 +704,18 @@ func runDomain(d *domain, tr int, rng *rand.Rand, o *vlib.Out, calls int) {
 		}
 		forced := -1
 		if derived[0] >= 0 && rng.Intn(2) == 0 {
+			target := derived
+			if rng.Intn(2) == 0 {
+				target = produced
+			}
 			for i := range d.ops {
-				if d.ops[i].fresh != nil && d.ops[i].recv == derived[0] {
-					p, forced = &d.ops[i], derived[1]
+				if d.ops[i].fresh != nil && d.ops[i].recv == target[0] {
+					p, forced = &d.ops[i], target[1]
 					break
 				}
 			}
 		}
-		derived = [2]int{-1, -1}
+		derived, produced = [2]int{-1, -1}, [2]int{-1, -1}
 		e := event{Ev: "call", Tr: tr, Dom: d.name, Op: p.name, Args: []int{}}
 		c := &call{rng: rng}
 		if p.recv >= 0 {
@@ -700,6 +739,7 @@ func runDomain(d *domain, tr int, rng *rand.Rand, o *vlib.Out, calls int) {
 			e.Args = append(e.Args, base[k]+i+1)
 			if p.recv >= 0 && p.recv != k && len(p.args) == 1 {
 				derived = [2]int{k, i}
+				produced = [2]int{p.recv, e.Recv - base[p.recv] - 1}
 			}
 		}
 		if p.x != nil {
